@@ -19,7 +19,7 @@ FullOpts  == {Lim(-1, -1), Lim(1, -1), Lim(2, -1), Lim(-1, 1), Lim(-1, 2), Lim(1
 SmallOpts == {Lim(-1, -1), Lim(1, -1), Lim(-1, 2), Lim(2, 3)}
 Opts(d) == IF Tier = "quick" /\ d = 3 THEN SmallOpts ELSE FullOpts
 
-ArrPositions == {"req", "opt", "nullopt", "defreq", "defopt", "optdefault"}
+ArrPositions == {"req", "opt", "nullopt", "nullreq", "defreq", "defopt", "optdefault"}
 
 ElemSchema(k) == IF k = "int" THEN [type |-> <<"integer">>]
                  ELSE ("type" :> <<"object">>) @@ ("properties" :> <<[k |-> "k", s |-> [type |-> <<"integer">>]]>>)
